@@ -671,6 +671,40 @@ def rule6(ctx, rep):
             )
 
 
+def rule7(ctx, rep):
+    """two clauses about how a submission enters (added after seeded changes C12-8 and C12-9)"""
+    prog, cg = ctx.prog, ctx.cg
+    with rep.rule(
+        'R-C12-7',
+        'one submission at a time: the "submission in progress" latch of the submit end points is released only by the running Process (through the callback it was handed), never by the request handler itself; and a priority text is converted by exact value lookup (the Priority enumeration defines no _missing_ / __new__ hook)',
+        floor=3,
+        breaks='a second submission gets in while the first one holds the gitting state and its refusal pushes the machine out of gitting (the first changeset is accepted but never reloads); or a blank / abbreviated priority text silently becomes NOW and the reload fires while work is executing',
+    ) as r:
+        for mod in ('dawgie.fe.api.submit', 'dawgie.fe.submit'):
+            clear = prog.funcs.get(f'{mod}.Defer.clear')
+            if clear is None:
+                raise AnalysisError(f'{mod}.Defer.clear (the latch release) not found')
+            r.instance()
+            direct = sorted({e.src.qname for e in cg.callers(clear.qname) if e.kind == 'direct'})
+            r.check(
+                not direct,
+                f'{mod}.Defer.clear:released-by-the-process-only',
+                where(prog.func(direct[0])) if direct else where(clear),
+                'Defer.clear is only handed on as a callback',
+                f'{mod}.Defer.clear is called directly by {direct}: the latch drops while the submission it protects is still running',
+            )
+        r.instance()
+        pc = prog.cls(PRI)
+        hooks = sorted(n for n in pc.methods if n in ('_missing_', '__new__', '_generate_next_value_', '__call__', '__class_getitem__'))
+        r.check(
+            not hooks,
+            f'{PRI}:exact-value-lookup',
+            where(pc.methods[hooks[0]]) if hooks else f'{pc.module.relpath}:{pc.node.lineno}',
+            'Priority(<text>) is the plain Enum value lookup',
+            f'{PRI} defines {hooks}: Priority(<text>) no longer raises ValueError for texts that are not a value, so the documented fallback to TODO in FSM.set_submit_info is bypassed',
+        )
+
+
 def check(ctx):
     rep = Report(
         PID,
@@ -689,6 +723,7 @@ def check(ctx):
     rule34(ctx, rep)
     rule5(ctx, rep)
     rule6(ctx, rep)
+    rule7(ctx, rep)
     return rep
 
 
@@ -716,6 +751,8 @@ VARIANTS = [
     V('fallback handler narrowed to ValueError', 'N', 'pl/state.py', 'FSM.set_submit_info', 'except:', 'except ValueError:', None),
     V('front end resets before gitting', 'B', 'fe/api/submit.py', 'Process.step_1', 'dawgie.context.fsm.gitting_trigger()', 'dawgie.context.fsm.reset()\n        dawgie.context.fsm.gitting_trigger()', 'R-C12-5'),
     V('done registered for failures too', 'B', 'pl/state.py', 'FSM.wait_for_doing', 'self.doing_thread.addCallbacks(\n                done,', 'self.doing_thread.addBoth(done)\n            self.doing_thread.addCallbacks(\n                print,', 'R-C12-3'),
+    V('latch released by the request handler', 'B', 'fe/api/submit.py', 'Defer.__call__', 'process.step_0()', 'process.step_0()\n                self.clear()', 'R-C12-7'),
+    V('forgiving priority lookup', 'B', 'tools/submit.py', 'Priority.max', '@staticmethod\n    def max(*largs):', '@classmethod\n    def _missing_(cls, value):\n        return None\n\n    @staticmethod\n    def max(*largs):', 'R-C12-7'),
     V('crossroads with inverted first test', 'N', 'pl/state.py', 'FSM.submit_crossroads', 'if self.priority is None:\n                pass\n            elif', 'if', None),
     V('done with early return', 'N', 'pl/state.py', 'FSM.wait_for_crew', 'if self.waiting_on_crew():\n                self.update_trigger()\n                pass', 'if not self.waiting_on_crew():\n                return\n            self.update_trigger()', None),
 ]
